@@ -76,10 +76,30 @@ def _alarm(signum, frame):
     raise RunTimeout()
 
 
+MEM_LIMIT = int(os.environ.get("VERIF_MEM_LIMIT_MB", "4096")) * 1024 * 1024
+
+
+def limit_memory():
+    """Damaged counts can make a decoder build multi-gigabyte lists inside one C call, which no alarm
+    interrupts (cmap format 12 with a flipped range end: 34 GB and counting). An address-space limit
+    turns that into a MemoryError inside the library."""
+    try:
+        import resource
+
+        soft, hard = resource.getrlimit(resource.RLIMIT_AS)
+        if soft == resource.RLIM_INFINITY or soft > MEM_LIMIT:
+            resource.setrlimit(resource.RLIMIT_AS, (MEM_LIMIT, hard))
+    except Exception:
+        pass
+
+
 def _worker_loop(fn, tasks, results, per_task_timeout):
+    limit_memory()
     signal.signal(signal.SIGALRM, _alarm)
     signal.signal(signal.SIGINT, signal.SIG_IGN)
     faulthandler.enable()
+    if hasattr(signal, "SIGUSR1"):
+        faulthandler.register(signal.SIGUSR1, all_threads=True)  # kill -USR1 <worker> prints its stack
     while True:
         try:
             item = tasks.get(timeout=5)
@@ -88,6 +108,7 @@ def _worker_loop(fn, tasks, results, per_task_timeout):
         if item is None:
             break
         key, arg = item
+        results.put(("__start__", (key, os.getpid()), 0))
         t = time.time()
         try:
             signal.alarm(per_task_timeout)
@@ -149,15 +170,30 @@ def pool_run(fn, items, workers, per_task_timeout=120, deadline=None, on_result=
     feed()
     last_progress = time.time()
     hard_stall = per_task_timeout * 3 + 60
+    running = {}  # pid -> key being executed
+
+    def reap():
+        """A worker that died (segfault, OOM kill, os._exit in library code) loses exactly the run it had."""
+        nonlocal inflight
+        for p in list(procs):
+            if not p.is_alive() and p.pid in running:
+                k = running.pop(p.pid)
+                if k not in out:
+                    out[k] = ("died", "worker pid %d exit code %s" % (p.pid, p.exitcode), 0.0)
+                    inflight -= 1
+                    if on_result is not None:
+                        on_result(k, out[k])
+                procs.remove(p)
+                spawn()
+
     while inflight > 0:
         try:
             key, res, wall = results.get(timeout=2)
         except queue.Empty:
+            reap()
+            feed()
             alive = [p for p in procs if p.is_alive()]
             if len(alive) < workers and (pending or inflight):
-                # a worker died (segfault / OOM): we cannot tell which task it had
-                if time.time() - last_progress > per_task_timeout + 30:
-                    break
                 for _ in range(workers - len(alive)):
                     spawn()
             if time.time() - last_progress > hard_stall:
@@ -165,6 +201,12 @@ def pool_run(fn, items, workers, per_task_timeout=120, deadline=None, on_result=
             continue
         if key == "__done__":
             continue
+        if key == "__start__":
+            running[res[1]] = res[0]
+            continue
+        for pid, k in list(running.items()):
+            if k == key:
+                del running[pid]
         last_progress = time.time()
         inflight -= 1
         out[key] = (res[0], res[1], wall)
@@ -376,8 +418,10 @@ def main(mod, argv=None):
     ctx = Ctx(mod.ID, args.tier, args.seed, workers, budget, opts={"scale": args.scale, "only": args.only, "cfg": cfg})
     try:
         if args.replay:
+            limit_memory()
             return replay(mod, ctx, args.replay)
         if args.run_many:
+            limit_memory()
             return run_many(mod, ctx, args.run_many)
         return check(mod, ctx, args)
     except HarnessError as e:
@@ -531,7 +575,7 @@ def check(mod, ctx, args):
             print("HARNESS-ERROR run=%s:%d\n%s" % (k[0], k[1], tb))
         exit_code = 2
     if agg["died"]:
-        print("HARNESS-ERROR %d runs lost to dead workers" % agg["died"])
+        print("HARNESS-ERROR %d runs lost to dead workers: %s" % (agg["died"], [(k, res[k][1]) for k in keys if res[k][0] == "died"][:5]))
         exit_code = 2
     if agg["timeouts"]:
         print("HARNESS: %d runs hit the per-run watchdog (inconclusive)" % agg["timeouts"])
